@@ -22,15 +22,17 @@ import (
 )
 
 type recNode struct {
-	inst       int
-	ty         eventlogger.NodeType
-	beh        string
-	closeFails bool
-	slowClose  time.Duration // Close takes this long (race scenarios: widens the window after the broker released its lock)
-	h          *regHarness
-	closes     int
-	reopens    int
-	wrapped    bool // registered inside a wrapRec: the registered node is the wrapper
+	inst             int
+	ty               eventlogger.NodeType
+	beh              string
+	closeFails       bool
+	slowClose        time.Duration // Close takes this long (race scenarios: widens the window after the broker released its lock)
+	h                *regHarness
+	closes           int
+	reopens          int
+	wrapped          bool // registered inside a wrapRec: the registered node is the wrapper
+	decorated        bool // registered inside a wrapCloser: the registered node has a Close of its own
+	inDecoratorClose bool
 }
 
 // wrapRec: a registered node that decorates another one and says so (NodeUnwrapper). It is no Closer:
@@ -48,11 +50,31 @@ func (w *wrapRec) Reopen() error {
 	n.reopens++
 	n.h.reopenCalls = append(n.h.reopenCalls, n.inst)
 	fail := n.h.failInst != 0 && n.h.failInst == n.inst
+	if fail && n.h.failOnce {
+		fail = !n.h.failedOnce
+		n.h.failedOnce = true
+	}
 	n.h.mu.Unlock()
 	if fail {
 		return instErr{n.inst}
 	}
 	return nil
+}
+
+// wrapCloser: a decorator that is a Closer itself AND says what it decorates. The node registered under
+// the id is the decorator: closing "the node" means calling ITS Close (which closes what it decorates).
+type wrapCloser struct{ wrapRec }
+
+func (w *wrapCloser) Close(ctx context.Context) error {
+	n := w.inner
+	n.h.mu.Lock()
+	n.inDecoratorClose = true
+	n.h.mu.Unlock()
+	err := n.Close(ctx)
+	n.h.mu.Lock()
+	n.inDecoratorClose = false
+	n.h.mu.Unlock()
+	return err
 }
 
 // sameErr: identity of error values (pointers compare by address, comparable values by value)
@@ -70,6 +92,9 @@ func b2i(b bool) int {
 
 func asRec(n eventlogger.Node) *recNode {
 	if w, ok := n.(*wrapRec); ok {
+		return w.inner
+	}
+	if w, ok := n.(*wrapCloser); ok {
 		return w.inner
 	}
 	return n.(*recNode)
@@ -145,6 +170,10 @@ func (n *recNode) Reopen() error {
 	n.reopens++
 	n.h.reopenCalls = append(n.h.reopenCalls, n.inst)
 	fail := n.h.failInst != 0 && n.h.failInst == n.inst
+	if fail && n.h.failOnce {
+		fail = !n.h.failedOnce
+		n.h.failedOnce = true
+	}
 	n.h.mu.Unlock()
 	if fail {
 		return instErr{n.inst}
@@ -158,6 +187,9 @@ func (n *recNode) Close(ctx context.Context) error {
 	n.h.closed = append(n.h.closed, n.inst)
 	if n.closes > 1 {
 		n.h.oracle("C06 instance %d closed %d times", n.inst, n.closes)
+	}
+	if n.decorated && !n.inDecoratorClose {
+		n.h.oracle("C06 instance %d is registered as a decorator with a Close of its own (a Closer that is also a NodeUnwrapper); the Broker did not close the registered node but went past it and closed the node it decorates", n.inst)
 	}
 	sib := n.h.rpanSiblings
 	n.h.mu.Unlock()
@@ -195,6 +227,8 @@ type regHarness struct {
 	closed      []int
 	reopenCalls []int
 	failInst    int
+	failOnce    bool
+	failedOnce  bool
 	curType     string
 	curPayload  interface{}
 	returned    []retErr // the errors the nodes' Process calls returned during the current Send
@@ -568,6 +602,9 @@ func (h *regHarness) exec(line string) string {
 			// every fourth instance is registered inside a wrapper (decided by the history alone, so a replay agrees)
 			n.wrapped = true
 			reg = &wrapRec{inner: n}
+		} else if h.nextInst%8 == 5 {
+			n.decorated = true
+			reg = &wrapCloser{wrapRec{inner: n}}
 		}
 		err := h.b.RegisterNode(nid(id), reg, polOpt(pol, true)...)
 		r := classify(err)
@@ -902,6 +939,9 @@ func (h *regHarness) exec(line string) string {
 		h.mu.Lock()
 		h.reopenCalls = nil
 		h.failInst = fail
+		// every third failure is transient: the node's Reopen fails once and would succeed if it were asked again
+		h.failOnce = h.st.Ops%3 == 0
+		h.failedOnce = false
 		h.mu.Unlock()
 		rctx := ctx
 		if h.st.Ops%2 == 0 {
@@ -930,7 +970,21 @@ func (h *regHarness) exec(line string) string {
 			h.st.hit("reopen:failing")
 			var ie instErr
 			if err == nil || !errors.As(err, &ie) || ie.inst != fail {
-				h.oracle("C20 Reopen with failing instance %d returned %v", fail, err)
+				h.oracle("C20 Reopen with failing instance %d (transient=%v) returned %v", fail, h.failOnce, err)
+			}
+			nFail, nListed := 0, 0
+			for _, c := range calls {
+				if c == fail {
+					nFail++
+				}
+			}
+			for _, w := range want {
+				if w == fail {
+					nListed++
+				}
+			}
+			if nFail > nListed {
+				h.oracle("C20 Reopen called the failing instance %d %d times, it is listed %d times", fail, nFail, nListed)
 			}
 			return "reopened failed"
 		}
